@@ -2,19 +2,84 @@
 import os
 import re
 
+C = "src/combinator.rs"
+P = "src/primitive.rs"
+I = "src/input.rs"
 # harness-name prefix -> list of (file, regex anchoring the function)
 MAP = {
-    "or_": [("src/combinator.rs", r"for Or<A, B>"), ("src/primitive.rs", r"impl_choice_for_tuple")],
-    "then_ignore": [("src/combinator.rs", r"for ThenIgnore<A, B, OB, E>")],
-    "then_": [("src/combinator.rs", r"impl<'src, I, E, A, B, OA, OB> Parser<'src, I, \(OA, OB\), E> for Then<")],
-    "ignore_then": [("src/combinator.rs", r"for IgnoreThen<A, B, OA, E>")],
-    "or_not": [("src/combinator.rs", r"Parser<'src, I, Option<O>, E> for OrNot<A>")],
-    "not_": [("src/combinator.rs", r"Parser<'src, I, \(\), E> for Not<A, OA>")],
-    "and_is": [("src/combinator.rs", r"for AndIs<A, B, OB>")],
-    "rewind": [("src/combinator.rs", r"for Rewind<A>")],
+    "or_": [(C, r"for Or<A, B>"), (P, r"impl_choice_for_tuple")],
+    "then_ignore": [(C, r"for ThenIgnore<A, B, OB, E>")],
+    "then_": [(C, r"Parser<'src, I, \(OA, OB\), E> for Then<")],
+    "ignore_then": [(C, r"for IgnoreThen<A, B, OA, E>")],
+    "or_not": [(C, r"Parser<'src, I, Option<O>, E> for OrNot<A>")],
+    "ornot_next": [(C, r"IterParser<'src, I, O, E> for OrNot<A>")],
+    "not_": [(C, r"Parser<'src, I, \(\), E> for Not<A, OA>")],
+    "and_is": [(C, r"for AndIs<A, B, OB>")],
+    "rewind": [(C, r"for Rewind<A>")],
+    "any_": [(P, r"Parser<'src, I, I::Token, E> for Any<I, E>")],
+    "just_": [(P, r"fn go_cfg<M: Mode>")],
+    "one_of": [(P, r"for OneOf<T, I, E>")],
+    "none_of": [(P, r"for NoneOf<T, I, E>")],
+    "select_": [(P, r"Parser<'src, I, O, E> for Select<F, I, O, E>")],
+    "end_": [(P, r"Parser<'src, I, \(\), E> for End<I, E>")],
+    "empty_": [(P, r"Parser<'src, I, \(\), E> for Empty<I, E>")],
+    "custom_": [(P, r"Parser<'src, I, O, E> for Custom<F, I, O, E>")],
+    "group2": [(P, r"macro_rules! impl_group_for_tuple")], "group3": [(P, r"macro_rules! impl_group_for_tuple")],
+    "group_array": [(P, r"Parser<'src, I, \[O; N\], E> for Group<\[P; N\]>"), ("src/private.rs", r"fn array_assume_init")],
+    "choice3": [(P, r"macro_rules! impl_choice_for_tuple")], "choice1": [(P, r"macro_rules! impl_choice_for_tuple")],
+    "choice_array": [(P, r"for Choice<\[A; N\]>"), (P, r"for Choice<&\[A\]>")], "choice_slice": [(P, r"for Choice<&\[A\]>")],
+    "choice_vec": [(P, r"for Choice<Vec<A>>")], "choice_empty": [(P, r"for Choice<&\[A\]>")],
+    "delimited_by": [(C, r"for DelimitedBy<A, B, C, OB, OC>")], "padded_by": [(C, r"for PaddedBy<A, B, OB>")],
+    "map_emit": [(C, r"Parser<'src, I, O, E> for Map<A, OA, F>")], "map_check": [(C, r"Parser<'src, I, O, E> for Map<A, OA, F>")],
+    "map_next": [(C, r"IterParser<'src, I, O, E> for Map<A, OA, F>")],
+    "to_emit": [(C, r"for To<A, OA, O>")], "to_check": [(C, r"for To<A, OA, O>")],
+    "ignored": [(C, r"for Ignored<A, OA>")], "to_span": [(C, r"for ToSpan<A, OA>")], "to_slice": [(C, r"for ToSlice<A, O>")],
+    "map_with": [(C, r"Parser<'src, I, O, E> for MapWith<A, OA, F>"), (I, r"pub\(crate\) fn new<'parse>")],
+    "validate": [(C, r"for Validate<A, OA, F>")], "filter": [(C, r"for Filter<A, F>")],
+    "try_map_with": [(C, r"for TryMapWith<A, OA, F>")], "try_map": [(C, r"for TryMap<A, OA, F>")],
+    "repeated_next": [(C, r"IterParser<'src, I, O, E> for Repeated<A, O, I, E>"), (C, r"fn next_cfg<M: Mode>")],
+    "repeated_go": [(C, r"Parser<'src, I, \(\), E> for Repeated<A, OA, I, E>")],
+    "sepby_next": [(C, r"IterParser<'src, I, OA, E> for SeparatedBy<")], "sepby_go": [(C, r"Parser<'src, I, \(\), E> for SeparatedBy<")],
+    "enumerate": [(C, r"for Enumerate<A, O>")],
+    "collect_exactly": [(C, r"for CollectExactly<A, O, C>"), ("src/container.rs", r"ContainerExactly<T> for \[T; N\]"), ("src/container.rs", r"ContainerExactly<T> for Box<C>")],
+    "collect_": [(C, r"for Collect<A, O, C>")], "count_": [(C, r"for Collect<A, O, C>")],
+    "foldl_with": [(C, r"for FoldlWith<F, A, B, OB, E>")], "foldl_": [(C, r"for Foldl<F, A, B, OB, E>")], "foldr_": [(C, r"for Foldr<F, A, B, OA, E>")],
+    "parse_with_state": [("src/lib.rs", r"fn parse_with_state")], "check_with_state": [("src/lib.rs", r"fn check_with_state")],
+    "lazy_": [("src/lib.rs", r"fn lazy\(")], "parse_result": [("src/lib.rs", r"impl<T, E> ParseResult<T, E>")],
+    "save_rewind": [(I, r"pub fn save\("), (I, r"pub fn rewind\("), (I, r"pub\(crate\) fn rewind_input\(")],
+    "emit_one": [(I, r"pub\(crate\) fn emit\(")], "add_alt_err": [(I, r"pub\(crate\) fn add_alt_err")], "add_alt_": [(I, r"pub\(crate\) fn add_alt<")],
+    "next_": [(I, r"pub\(crate\) fn next_inner"), (I, r"pub\(crate\) fn next_maybe_inner")], "peek_": [(I, r"pub fn peek\("), (I, r"pub fn peek_maybe\(")],
+    "skip_while": [(I, r"pub\(crate\) fn skip_while")], "inputref_": [(I, r"pub fn parse<O, P"), (I, r"pub fn check<O, P")],
+    "recover_via_parser": [("src/recovery.rs", r"for RecoverWith<A, S>"), ("src/recovery.rs", r"for ViaParser<A>")],
+    "skip_until": [("src/recovery.rs", r"for SkipUntil<S, U, F>")], "skip_retry": [("src/recovery.rs", r"for SkipThenRetryUntil<S, U>")],
+    "infix_step": [("src/pratt.rs", r"for Infix<'src, A, F, O, Op, I, E>")], "prefix_step": [("src/pratt.rs", r"for Prefix<'src, A, F, O, Op, I, E>")],
+    "postfix_step": [("src/pratt.rs", r"for Postfix<'src, A, F, O, Op, I, E>")],
+    "infix_table": [("src/pratt.rs", r"macro_rules! impl_operator_for_tuple"), ("src/pratt.rs", r"for Vec<Op>"), ("src/pratt.rs", r"Operator<'src, I, O, E> for Boxed<")],
+    "pratt_chain": [("src/pratt.rs", r"fn pratt_go<M: Mode, I, O, E>")],
+    "wrap_ref": [("src/blanket.rs", r"Parser<'src, I, O, E> for &T")], "wrap_box": [("src/lib.rs", r"for ::alloc::boxed::Box<T>")],
+    "wrap_rc": [("src/lib.rs", r"for ::alloc::rc::Rc<T>")], "wrap_arc": [("src/lib.rs", r"for ::alloc::sync::Arc<T>")],
+    "wrap_boxed": [("src/lib.rs", r"Parser<'src, I, O, E> for Boxed<'src, '_, I, O, E>")], "wrap_either": [("src/either.rs", r"for Either<L, R>")],
+    "cache_": [("src/cache.rs", r"pub fn get<'src>")],
+    "recursive_indirect": [("src/recursive.rs", r"for Recursive<Indirect<"), ("src/recursive.rs", r"pub fn set\(")], "recursive_define": [("src/recursive.rs", r"pub fn set\("), ("src/recursive.rs", r"pub fn define<")],
+    "recursive_direct": [("src/recursive.rs", r"for Recursive<Direct<"), ("src/recursive.rs", r"pub fn recursive<")], "recursive_unroll": [("src/recursive.rs", r"pub fn recursive<")],
+    "ext_": [("src/extension.rs", r"for Ext<P>")],
+    "with_ctx": [(C, r"for WithCtx<A, Ctx>"), (I, r"pub\(crate\) fn with_ctx")], "ctx_nearest": [(C, r"for WithCtx<A, Ctx>")],
+    "ignore_with_ctx": [(C, r"for IgnoreWithCtx<A, B, OA, I, extra")], "then_with_ctx": [(C, r"for ThenWithCtx<A, B, OA, I, extra")],
+    "map_ctx": [(P, r"for MapCtx<A, EI, F, E>")], "configure_just": [(C, r"for Configure<A, F>"), (P, r"fn go_cfg<M: Mode>")],
+    "configure_repeated": [(C, r"IterParser<'src, I, O, E> for IterConfigure<A, F, O>"), (C, r"fn next_cfg<M: Mode>")], "try_configure": [(C, r"IterParser<'src, I, O, E> for TryIterConfigure<A, F, O>")],
+    "nested_in": [(C, r"for NestedIn<A, B, J, F, O, E>"), (I, r"pub\(crate\) fn with_input")],
+    "labelled": [("src/label.rs", r"for Labelled<A, L>")], "map_err": [(C, r"for MapErrWithState<A, F>"), (C, r"for MapErr<A, F>")],
+    "with_state": [(C, r"for WithState<A, State>"), (I, r"pub\(crate\) fn with_state")],
+    "slice_input": [(I, r"Input<'src> for &'src \[T\] \{")], "array_input": [(I, r"Input<'src> for &'src \[T; N\]")],
+    "str_": [(I, r"Input<'src> for &'src str"), (I, r"SliceInput<'src> for &'src str")],
+    "mapped_input": [(I, r"Input<'src> for MappedInput<T, S, I, F>")], "iter_input": [("src/stream.rs", r"for IterInput<I, S>")],
+    "stream_input": [("src/stream.rs", r"ValueInput<'a> for Stream<I>")], "span_wrappers": [(I, r"for MappedSpan<S, I, F>"), (I, r"Input<'src> for WithContext<S, I>")],
+    "char_classes": [("src/text.rs", r"impl Char for char"), ("src/text.rs", r"impl Char for u8")], "ident_classes": [("src/text.rs", r"fn is_ident_start")],
+    "newline_": [("src/text.rs", r"pub fn newline<")], "int_": [("src/text.rs", r"pub fn int<")], "digits_": [("src/text.rs", r"pub fn digits<")],
+    "whitespace_": [("src/text.rs", r"pub fn whitespace<")], "inline_whitespace": [("src/text.rs", r"pub fn inline_whitespace<")],
+    "ascii_ident": [("src/text.rs", r"pub fn ident<")], "ascii_keyword": [("src/text.rs", r"pub fn keyword<")], "padded_": [("src/text.rs", r"for Padded<A>")],
 }
-COMMON = [("src/input.rs", r"pub fn save\("), ("src/input.rs", r"pub fn rewind\("), ("src/input.rs", r"pub\(crate\) fn emit\("),
-          ("src/input.rs", r"pub\(crate\) fn add_alt_err"), ("src/input.rs", r"pub\(crate\) fn add_alt<")]
+COMMON = [(I, r"pub fn save\("), (I, r"pub fn rewind\("), (I, r"pub\(crate\) fn emit\("), (I, r"pub\(crate\) fn add_alt_err"), (I, r"pub\(crate\) fn add_alt<")]
 
 
 def locate(repo, file, pat):
